@@ -8,6 +8,7 @@ structure St where
   models : List (List Coord) := []
   bonds : List (Nat × Nat) := []
   lines : List (List Char) := []
+  cell : Option Cell := none
 
 def hexVal (c : Char) : Option Nat :=
   if '0' ≤ c && c ≤ '9' then some (c.toNat - 48)
@@ -61,6 +62,15 @@ def showRead (r : FileRead) : String :=
   joinWith "|" (r.models.map fun m => joinWith ";" (m.map fun c => s!"{c.1},{c.2.1},{c.2.2}")) ++ " B:" ++
   joinWith "," (r.bonds.map fun b => s!"{b.1}-{b.2}")
 
+def showCell : Option (Option CellRead) → Option String
+  | none => none
+  | some none => some " X:-"
+  | some (some u) => some s!" X:{u.a},{u.b},{u.c},{u.alpha},{u.beta},{u.gamma}"
+
+/-- read result followed by the cell; an error of the atoms part wins, an unmodelled cell makes all unmodelled -/
+def withCell (r : String) (lines : List (List Char)) : String :=
+  if r.startsWith "ok" then (match showCell (readCell lines) with | some x => r ++ x | none => "unmodelled") else r
+
 def showR {α : Type} (f : α → String) : R α → String
   | none => "unmodelled"
   | some (.error e) => showErr e
@@ -99,9 +109,14 @@ def step (st : St) (line : String) : St × String :=
     match parseBool h36, parseBool hasId, parseBool hasB, parseBool hasOcc, parseBool hasQ, parseBool hasBonds with
     | some h36, some hasId, some hasB, some hasOcc, some hasQ, some hasBonds =>
       let fl : Flags := { h36 := h36, hasId := hasId, hasB := hasB, hasOcc := hasOcc, hasQ := hasQ, hasBonds := hasBonds }
-      match writePdb fl { atoms := st.atoms, models := st.models, bonds := st.bonds } with
+      match writePdbBox fl st.cell { atoms := st.atoms, models := st.models, bonds := st.bonds } with
       | .ok ls => ({ st with lines := ls }, s!"ok {ls.length} |" ++ joinWith "|" (ls.map str) ++ "|")
       | .error e => ({ st with lines := [] }, showErr e)
+    | _, _, _, _, _, _ => (st, "bad-op")
+  | "cell" :: a :: b :: c :: al :: be :: ga :: _ =>
+    match parseFx a, parseFx b, parseFx c, parseFx al, parseFx be, parseFx ga with
+    | some a, some b, some c, some al, some be, some ga =>
+      ({ st with cell := some { a := a, b := b, c := c, alpha := al, beta := be, gamma := ga } }, "ok")
     | _, _, _, _, _, _ => (st, "bad-op")
   | ["rawline", s] =>
     match unhex s with
@@ -109,11 +124,11 @@ def step (st : St) (line : String) : St × String :=
     | none => (st, "bad-op")
   | ["read", b] =>
     match parseBool b with
-    | some b => (st, if st.lines.isEmpty then "no-file" else showR showRead (readPdb b st.lines))
+    | some b => (st, if st.lines.isEmpty then "no-file" else withCell (showR showRead (readPdb b st.lines)) st.lines)
     | none => (st, "bad-op")
   | ["readmodel", k, b] =>
     match k.toInt?, parseBool b with
-    | some k, some b => (st, if st.lines.isEmpty then "no-file" else showR showRead (readModel k b st.lines))
+    | some k, some b => (st, if st.lines.isEmpty then "no-file" else withCell (showR showRead (readModel k b st.lines)) st.lines)
     | _, _ => (st, "bad-op")
   | _ => (st, "bad-op")
 
